@@ -275,13 +275,58 @@ impl World {
             st.sim_clock_ns += 1_000_000 + (h >> 8) % 120_000_000_000;
             st.reach("clock_jump");
         }
-        let base: u64 = if realtime { 1_700_000_000_000_000_000 } else { 1_000_000_000_000_000 };
+        let base: u64 = if realtime { epoch_base_ns(self.sc.sched.seed) } else { monotonic_base_ns(self.sc.sched.seed) };
         Some(base + st.sim_clock_ns)
     }
 
     /// plain scheduling point (not a yield request, which PCT would read as "demote me")
     pub fn switch(&self) {
         shuttle::thread::sleep(std::time::Duration::from_millis(0));
+    }
+}
+
+/// Calendar instants a deployment lives through and a fixed simulated epoch never reaches (seconds
+/// since 1970, all with 19-digit nanosecond values): leap days, year ends, daylight-saving changes,
+/// the 2^31 and 2^32 second marks, century non-leap year, a Sunday midnight.
+const EPOCHS: [u64; 16] = [
+    1_709_164_800, // 2024-02-29 00:00:00
+    1_709_251_199, // 2024-02-29 23:59:59
+    1_735_689_599, // 2024-12-31 23:59:59 (leap year day 366)
+    1_704_067_199, // 2023-12-31 23:59:59
+    1_711_846_799, // 2024-03-31 00:59:59 UTC (EU clocks go forward)
+    1_730_599_199, // 2024-11-03 01:59:59 (US clocks go back, as UTC label)
+    1_700_351_999, // 2023-11-18 23:59:59, a Saturday turning Sunday
+    2_147_483_646, // 2038-01-19 03:14:06: i32 seconds run out during the run
+    2_147_483_649,
+    4_102_444_799, // 2099-12-31 23:59:59
+    4_107_542_399, // 2100-02-28 23:59:59: no leap day follows
+    4_294_967_294, // 2106: u32 seconds run out during the run
+    4_294_967_297,
+    1_893_455_999, // 2029-12-31 23:59:59
+    1_000_000_001, // 2001-09-09: the smallest 19-digit nanosecond values
+    9_223_372_030, // 2262: i64 nanoseconds are about to run out (six seconds left)
+];
+
+/// wall-clock epoch of a run: half of the runs start at the legacy instant (2023-11-14), the others
+/// one or two seconds before an instant of EPOCHS or at an arbitrary second of the next 30 years
+pub fn epoch_base_ns(seed: u64) -> u64 {
+    let h = mix(seed ^ 0xe90c, 1);
+    let secs = match h % 4 {
+        0 | 1 => 1_700_000_000,
+        2 => EPOCHS[((h >> 8) % EPOCHS.len() as u64) as usize] - (h >> 16) % 3,
+        _ => 1_700_000_000 + (h >> 8) % 946_080_000,
+    };
+    secs * 1_000_000_000 + if h % 4 >= 2 { (h >> 24) % 1_000_000_000 } else { 0 }
+}
+
+/// monotonic clock of a run: usually days after boot, sometimes a few seconds after it (subtracting
+/// a duration from such an Instant underflows)
+pub fn monotonic_base_ns(seed: u64) -> u64 {
+    let h = mix(seed ^ 0xb007, 1);
+    match h % 8 {
+        0 => 1_000_000 + (h >> 8) % 5_000_000_000,
+        1 => 4_000_000_000_000_000_000,
+        _ => 1_000_000_000_000_000,
     }
 }
 
@@ -333,7 +378,11 @@ impl Backend for SimBackend {
         let w = WORLD.get()?;
         let mut st = w.st.lock().unwrap();
         st.clock += 1;
-        Some(1_700_000_000_000_000_000u128 + st.clock as u128)
+        let base = epoch_base_ns(w.sc.sched.seed);
+        if st.clock == 1 && base != 1_700_000_000_000_000_000 {
+            st.reach("epoch_other_than_2023_11_14");
+        }
+        Some(base as u128 + st.clock as u128)
     }
 
     fn thread_enter(&self, name: Option<&str>) {
